@@ -859,11 +859,17 @@ def corpus():
     out.append(_case(W32, [{"op": "extend", "on": 0, "doc": "extend type Bar { z: Int }"},
                            {"op": "camel", "on": 1}, {"op": "extend", "on": 2, "doc": "extend enum E { C }"}],
                      decor_seed=4))
-    # extension documents: a repeated definition replaces the first one (dict semantics of
-    # _collect_extensions); new input type + directive + object type + schema extension
+    # extension documents: a type / directive defined twice in the document is an ExtensionError
+    # (fix C11-09; it used to replace the first definition silently) -> rejected, later steps skipped
     out.append(_case(W32, [{"op": "extend", "on": 0, "doc":
                             "input NewIn { a_b: Int = 2, c: String }\ndirective @added(x: NewIn, y_z: Int) on FIELD\n"
                             "input NewIn { a_b: Int = 2, c: In2 }\ndirective @added(x: NewIn) on QUERY\n"
+                            "type NewMut { do_it(v: Int = 1): Foo }\nextend schema { mutation: NewMut }\n"
+                            "extend union U = Orphan\nextend enum E { \"added\" C @deprecated }"},
+                           {"op": "camel", "on": 1}, {"op": "clone", "on": 0}], decor_seed=5))
+    # the same document without the repeated definitions: accepted
+    out.append(_case(W32, [{"op": "extend", "on": 0, "doc":
+                            "input NewIn { a_b: Int = 2, c: In2 }\ndirective @added(x: NewIn, y_z: Int) on FIELD | QUERY\n"
                             "type NewMut { do_it(v: Int = 1): Foo }\nextend schema { mutation: NewMut }\n"
                             "extend union U = Orphan\nextend enum E { \"added\" C @deprecated }"},
                            {"op": "camel", "on": 1}, {"op": "clone", "on": 0}], decor_seed=5))
